@@ -515,6 +515,94 @@ def r13_9(ctx):
     ctx.floor("R13.9", n, 2, "functions that remove message files one by one")
 
 
+def _clock_of_call(e):
+    e = strip_await(e)
+    if isinstance(e, ast.Call) and isinstance(e.func, ast.Attribute) and not e.args:
+        t = norm(e.func)
+        if t in ("time.time", "time.time_ns"):
+            return "wall"
+        if t in ("time.monotonic", "time.perf_counter", "time.monotonic_ns") or t.endswith("loop.time") or t.endswith("get_event_loop().time") or t.endswith("get_running_loop().time"):
+            return "mono"
+    return None
+
+
+def r13_10(ctx):
+    """Clock domains: a value read from the wall clock (time.time) is only ever subtracted from / compared with another wall
+    clock reading, a monotonic one (time.monotonic, loop.time) with a monotonic one.  The difference of the two is a
+    meaningless (hugely negative) number: the `more than 10 s since the last resync` test of command_can_proceed() - the
+    only thing that makes a mailbox look at its folder while sessions keep it busy with non-conflicting commands - can then
+    never fire, and delivered mail is not announced for as long as the stream lasts.  Domains are inferred per local name (in
+    its function) and per attribute name (over the package) from what is assigned to them: a name that only ever receives
+    one clock's readings (+/- a number) carries that clock."""
+    p = ctx.p
+
+    def dom_of_value(v, local):
+        v = strip_await(v)
+        d = _clock_of_call(v)
+        if d:
+            return d
+        if isinstance(v, ast.BinOp) and isinstance(v.op, (ast.Add, ast.Sub)):
+            l, r = dom_of_value(v.left, local), dom_of_value(v.right, local)
+            if isinstance(v.op, ast.Sub) and l and r:
+                return None  # a duration
+            return l or (r if isinstance(v.op, ast.Add) else None)
+        if isinstance(v, ast.Name):
+            return local.get(v.id)
+        return None
+
+    # attribute domains over the package
+    attr_src: dict[str, set] = {}
+    for fi in p.functions.values():
+        for s in body_walk(fi.node):
+            if isinstance(s, (ast.Assign, ast.AnnAssign)) and getattr(s, "value", None) is not None:
+                ts = s.targets if isinstance(s, ast.Assign) else [s.target]
+                for t in ts:
+                    if isinstance(t, ast.Attribute):
+                        d = dom_of_value(s.value, {})
+                        v = strip_await(s.value)
+                        if d is None and isinstance(v, ast.Constant) and isinstance(v.value, (int, float, type(None))):
+                            continue  # initial 0 / None
+                        attr_src.setdefault(t.attr, set()).add(d or "other")
+    attr_dom = {a: next(iter(ds)) for a, ds in attr_src.items() if len(ds) == 1 and next(iter(ds)) in ("wall", "mono")}
+    n_ops = 0
+    for fi in p.functions.values():
+        local_src: dict[str, set] = {}
+        for s in body_walk(fi.node):
+            if isinstance(s, (ast.Assign, ast.AnnAssign)) and getattr(s, "value", None) is not None:
+                ts = s.targets if isinstance(s, ast.Assign) else [s.target]
+                for t in ts:
+                    if isinstance(t, ast.Name):
+                        d = dom_of_value(s.value, {k: next(iter(v)) for k, v in local_src.items() if len(v) == 1})
+                        local_src.setdefault(t.id, set()).add(d or "other")
+        local = {k: next(iter(v)) for k, v in local_src.items() if len(v) == 1 and next(iter(v)) in ("wall", "mono")}
+
+        def dom(e):
+            e = strip_await(e)
+            d = dom_of_value(e, local)
+            if d:
+                return d
+            if isinstance(e, ast.Attribute):
+                return attr_dom.get(e.attr)
+            return None
+
+        for e in body_walk(fi.node):
+            pairs = []
+            if isinstance(e, ast.BinOp) and isinstance(e.op, ast.Sub):
+                pairs.append((e.left, e.right))
+            elif isinstance(e, ast.Compare) and len(e.ops) == 1 and isinstance(e.ops[0], (ast.Lt, ast.LtE, ast.Gt, ast.GtE)):
+                pairs.append((e.left, e.comparators[0]))
+            for a, b in pairs:
+                da, db = dom(a), dom(b)
+                if da and db:
+                    n_ops += 1
+                    ctx.analysed(fi)
+                    if da != db:
+                        ctx.bad("R13.10", fi.module, fi.qual, norm(e, 80), f"`{norm(a, 40)}` is a {'wall-clock' if da == 'wall' else 'monotonic'} reading and `{norm(b, 40)}` a {'wall-clock' if db == 'wall' else 'monotonic'} one: their difference is not a time span, the test built on it never (or always) fires - here the forced resync of a busy mailbox, so mail delivered meanwhile is not announced", e.lineno)
+                    else:
+                        ctx.ok("R13.10", where(fi), f"{norm(e, 50)}: both {da}", nontrivial=False)
+    ctx.floor("R13.10", n_ops, 15, "subtractions / comparisons between clock readings")
+
+
 def run(ctx):
     ctx.do(r13_1)
     ctx.do(r13_2)
@@ -525,6 +613,7 @@ def run(ctx):
     ctx.do(r13_7)
     ctx.do(r13_8)
     ctx.do(r13_9)
+    ctx.do(r13_10)
     from . import c10
     ctx.do(c10.r10_7)
     from . import c02 as _c02
